@@ -104,7 +104,7 @@ func gApply(c *Check) {
 	l := fi.Sym(nextCE.Params[0])
 	allow := fi.Sym(nextCE.Params[1])
 	for _, ret := range returnsOf(fi) {
-		v := fi.Sym(ret.Results[0])
+		v := fi.RetSym(ret, 0)
 		site := p.site(ret)
 		if v.K == KNil {
 			continue
@@ -140,7 +140,7 @@ func gApply(c *Check) {
 		hfi := p.Info(hasNextCE)
 		hl := hfi.Sym(hasNextCE.Params[0])
 		for _, ret := range returnsOf(hfi) {
-			v := hfi.Sym(ret.Results[0])
+			v := hfi.RetSym(ret, 0)
 			if v.K == KConst && v.C != nil && v.C.String() == "false" {
 				continue
 			}
@@ -152,7 +152,7 @@ func gApply(c *Check) {
 	if hasSnap != nil {
 		sfi := p.Info(hasSnap)
 		for _, ret := range returnsOf(sfi) {
-			v := sfi.Sym(ret.Results[0])
+			v := sfi.RetSym(ret, 0)
 			ok := v.K == KBin && v.Name == "!=" && v.Args[0].K == KField && v.Args[0].Fld == snapF && v.Args[1].K == KNil
 			c.Result(ok, "C08.S", "hasNextOrInProgressSnapshot", fnName(hasSnap), p.site(ret), "returns unstable.snapshot != nil", v.Key())
 		}
@@ -176,7 +176,7 @@ func gApply(c *Check) {
 	// (d) allowUnstable is always applyUnstableEntries() = !asyncStorageWrites
 	afi := p.Info(applyUnstable)
 	for _, ret := range returnsOf(afi) {
-		v := afi.Sym(ret.Results[0])
+		v := afi.RetSym(ret, 0)
 		ok := v.K == KNot && v.Args[0].K == KField && v.Args[0].Fld == asyncF
 		c.Result(ok, "C08.A", "applyUnstableEntries", fnName(applyUnstable), p.site(ret), "returns !asyncStorageWrites", v.Key())
 	}
@@ -280,6 +280,13 @@ func gApply(c *Check) {
 		ok1, _ := bfImplies(sizeGE, code)
 		c.Result(ok1, "C08.P", "store applyingEntsPaused", fnName(st.Fn), p.site(st.Instr), "paused whenever applyingEntsSize >= maxApplyingEntsSize", "value "+code.String())
 	}
+	cSnapClear(c)
+}
+
+// cSnapClear — the pending snapshot is cleared only by the matching storage acknowledgement.
+func cSnapClear(c *Check) {
+	p := c.P
+	snapF := p.Field("raft", "unstable", "snapshot")
 	// C08.S: the pending snapshot is cleared only by stableSnapTo on the matching index, reached from appliedSnap
 	stableSnapTo := p.Method("raft", "unstable", "stableSnapTo")
 	appliedSnap := p.Method("raft", "raft", "appliedSnap")
